@@ -184,7 +184,7 @@ static void remember(const uint8_t *pkt, int len, int isdata)
 	M.hist[0].used = 1; M.hist[0].len = len; M.hist[0].isdata = isdata; memcpy(M.hist[0].pkt, pkt, len);
 }
 
-typedef struct pos { int in_seq, in_frag, in_len, in_off; int out_seq, out_frag, out_off, out_sent, out_len; int q_next, q_filled; uint64_t inhash[2]; } pos;
+typedef struct pos { int in_seq, in_frag, in_len, in_off; int out_seq, out_frag, out_off, out_sent, out_len; int q_next, q_filled; uint64_t inhash[2]; int resent; uint64_t settings[2], qmem[2], queue[2]; } pos;
 static void get_pos(pos *p)
 {
 	struct tun_user *u = &s_w_users()[M.uid];
@@ -196,6 +196,26 @@ static void get_pos(pos *p)
 	int n = u->inpacket.offset; if (n < 0) n = 0; if (n > (int)sizeof u->inpacket.data) n = sizeof u->inpacket.data;
 	h128_update(&h, u->inpacket.data, n);
 	h128_final(&h, p->inhash);
+	/* everything else in the session record that describes the streams: re-send counter, settings, query memories and queue (seeded C16-i: a cache hit counted as a re-send of the fragment in flight, which the sender later
+	 * takes for the sixth failed attempt and gives the packet up) */
+	p->resent = u->outfragresent;
+	h128_init(&h);
+	h128_update(&h, &u->encoder, sizeof u->encoder); h128_update(&h, &u->downenc, 1); h128_update(&h, &u->fragsize, sizeof u->fragsize);
+	h128_update(&h, &u->conn, sizeof u->conn); h128_update(&h, &u->lazy, sizeof u->lazy);
+	h128_update(&h, &u->authenticated, sizeof u->authenticated); h128_update(&h, &u->authenticated_raw, sizeof u->authenticated_raw);
+	h128_final(&h, p->settings);
+	h128_init(&h);
+	h128_update(&h, u->qmemping_cmc, sizeof u->qmemping_cmc); h128_update(&h, u->qmemping_type, sizeof u->qmemping_type); h128_update(&h, &u->qmemping_lastfilled, sizeof u->qmemping_lastfilled);
+	h128_update(&h, u->qmemdata_cmc, sizeof u->qmemdata_cmc); h128_update(&h, u->qmemdata_type, sizeof u->qmemdata_type); h128_update(&h, &u->qmemdata_lastfilled, sizeof u->qmemdata_lastfilled);
+	h128_final(&h, p->qmem); p->qmem[0] = p->qmem[1] = 0;      /* not compared: a repeat in other letter case is legitimately entered into the memory */
+	h128_init(&h);
+	for (int i = 0; i < u->outpacketq_filled && i < OUTPACKETQ_LEN; i++) {
+		const struct packet *q = &u->outpacketq[(u->outpacketq_nexttouse + i) % OUTPACKETQ_LEN];
+		int k = q->len < 0 ? 0 : q->len > (int)sizeof q->data ? (int)sizeof q->data : q->len;
+		h128_update(&h, &q->len, sizeof q->len); h128_update(&h, q->data, k);
+	}
+	{ int k = u->outpacket.len < 0 ? 0 : u->outpacket.len > (int)sizeof u->outpacket.data ? (int)sizeof u->outpacket.data : u->outpacket.len; h128_update(&h, u->outpacket.data, k); }
+	h128_final(&h, p->queue);
 }
 
 static int qname_eq(const uint8_t *a, int al, const uint8_t *b, int bl) { return al == bl && !memcmp(a, b, al); }
@@ -329,12 +349,16 @@ static int apply(int li)
 		if (timer_pending) { adv_clear(); expect_cached = -1; }
 		if (is16) {
 			xp_count(K_POS_CHECKS, 1);
+			/* a repeat that is not byte-identical in name and type (or whose answer has left the cache) is answered anew, and the
+			 * fresh answer re-sends the fragment in flight - that counts as a re-send; only a repeat served from the answer
+			 * cache must leave the counter alone */
+			if (expect_cached < 0 || M.rawed) after.resent = before.resent;
 			if (memcmp(&before, &after, sizeof before))
 				viol("redelivery-moved-the-stream", "%s: upstream position (seq %d frag %d len %d off %d) -> (%d %d %d %d), downstream (seq %d frag %d off %d sent %d len %d, queue %d+%d) -> (%d %d %d %d %d, %d+%d)%s", L->name,
 				     before.in_seq, before.in_frag, before.in_len, before.in_off, after.in_seq, after.in_frag, after.in_len, after.in_off,
 				     before.out_seq, before.out_frag, before.out_off, before.out_sent, before.out_len, before.q_next, before.q_filled,
 				     after.out_seq, after.out_frag, after.out_off, after.out_sent, after.out_len, after.q_next, after.q_filled,
-				     memcmp(before.inhash, after.inhash, 16) ? ", reassembled bytes changed" : "");
+				     memcmp(before.inhash, after.inhash, 16) ? ", reassembled bytes changed" : before.resent != after.resent ? ", re-send counter of the fragment in flight changed" : memcmp(before.settings, after.settings, 16) ? ", session settings changed" : memcmp(before.queue, after.queue, 16) ? ", queued downstream data changed" : "");
 			if (expect_cached >= 0 && !M.rawed) {
 				xp_count(K_CACHE_EXPECTED, 1);
 				cachee *e = &M.cache[expect_cached];
